@@ -52,15 +52,21 @@ def eval_moved_in(fam, outer, inner):
     want = X.contains(outer, inner, g)
     if not g.ok() or not (faces_hash_ok(outer) and faces_hash_ok(inner)):
         return 'skip:guard', []
-    lo = lib.to_lib(outer)
-    lib.call(lambda: lib.to_lib(inner) in lo)
+    # container and candidates are built from caller-owned Points that also serve other, moved, lines / segments
+    with lib.shared_points():
+        lo = lib.to_lib(outer)
+        first = lib.call(lambda: lib.to_lib(inner) in lo)
+    if first is not want:
+        return 'moved', [Viol('C05|moved|%s in %s|%s|operands-built-from-shared-points' % (inner[0], outer[0], want), core.enc((outer, inner)), want,
+                              lib.describe(first), 'membership with operands built from Point objects that also served other (moved) lines, segments and half-lines')]
     t = (0, 0, 0)
     for i, v in enumerate(MOVED_V):
         m = lib.call(lo.move, lib.V(v))
         if isinstance(m, lib.Raised):
             return 'moved', [Viol('C05|moved|%s|move-raises:%s' % (outer[0], m.cls), core.enc((outer, inner)), 'moved', repr(m), '')]
         t = X.add(t, v)
-        li = lib.to_lib(X.xform(inner, ID3, 1, t))
+        with lib.shared_points():
+            li = lib.to_lib(X.xform(inner, ID3, 1, t))
         for who, obj in (('receiver', lo), ('returned', m)):
             got = lib.call(lambda: li in obj)
             if got is not want:
